@@ -3,6 +3,19 @@ TRUST = ("trusted: CPython ast; the checker's own engines; for table rules the i
          "against the real loaders at development time). Known findings are listed in KNOWN_FINDINGS.txt. ")
 
 META = {
+    "C11": {
+        "engine": "sa: call graph with receiver resolution + whole-program lints, positive controls",
+        "technique": "reachability-scoped lints on the resolved program (set-typed value inference + order-sensitivity "
+                     "classification, ambient-input calls, shared-object mutation outside import time, mutable-default "
+                     "escape analysis, memoisation/global rebinding, dynamic-feature escapes)",
+        "text": "over all functions reachable from the entry points: no order-sensitive consumption of a hash-ordered "
+                "container (each set iteration is classified commutative or listed with a reviewed reason), no "
+                "randomness/clock/identity/environment input, no module- or class-level mutable object mutated at run "
+                "time, no mutated or leaking mutable default, definitions/force field/handlers constructed inside the "
+                "call tree of each run and never memoised, no eval/exec/globals. Zero-expected lints are backed by a "
+                "positive-control module that must be flagged on every run. Third-party determinism is assumed.",
+        "note": TRUST + "Unreachable legacy functions are listed in the evidence and come back into scope if called.",
+    },
     "C13": {
         "engine": "sa: pairing/alias analysis, guard sets, guard engine, table model",
         "technique": "symmetry check of the partner-update block under the a<->b swap with alias resolution; "
